@@ -1,11 +1,12 @@
 """C02 -- each STV / IRV / SequentialRCV round is a legal step of the documented count."""
-import random, os, json
-from ..common import Result, OUT, scratch
-from .. import domains as D
+import random
 from . import elect as EL
+from .. import domains as D
 from ..elections import base_cfg
 
 PID = "C02"
+MC = {"quick": [dict(family="stv", max_ballots=2, max_w=1)],
+      "thorough": [dict(family="stv", max_ballots=2, max_w=2, with_half=True), dict(family="droop", max_ballots=3, max_w=2)]}
 
 
 def stv_config(rng, nc, rules=("STV", "STV", "STV", "SequentialRCV", "IRV")):
@@ -15,25 +16,21 @@ def stv_config(rng, nc, rules=("STV", "STV", "STV", "SequentialRCV", "IRV")):
                     simul=True if r == "IRV" else rng.random() < 0.5, xfer=x, tb=rng.choice(["none", "random", "borda", "first_place"]))
 
 
-def corpus(tier, seed, rules=("STV", "SequentialRCV", "IRV")):
-    rng = random.Random(1000 + seed)
+def corpus(tier, seed, rules=("STV", "SequentialRCV", "IRV"), offset=1000):
+    rng = random.Random(offset + seed)
     cands = ["A", "B", "C"]
     rk = D.untied_rankings(cands)
     cfgs = D.stv_configs(3, rules=rules)
+    pool = [r for r in ("STV", "STV", "STV", "SequentialRCV", "IRV") if r in rules]
     if tier == "quick":
         inputs = EL.inputs_exhaustive(rng, cands, rk, 2, D.INT_W(2), cfgs, per_bag=8)
         inputs += EL.inputs_exhaustive(rng, cands, rk, 2, D.HALF_W, cfgs, per_bag=2)
-        inputs += EL.inputs_sampled(rng, 500, (4, 5), 6, lambda r, nc: stv_config(r, nc, [x for x in rules for _ in range(2)] + ["STV"] if "STV" in rules else list(rules)))
+        inputs += EL.inputs_sampled(rng, 500, (4, 5), 6, lambda r, nc: stv_config(r, nc, pool))
     else:
         inputs = EL.inputs_exhaustive(rng, cands, rk, 2, D.INT_W(2) + D.HALF_W, cfgs, per_bag=None)
         inputs += EL.inputs_exhaustive(rng, cands, rk, 3, D.INT_W(2), cfgs, per_bag=6)
-        inputs += EL.inputs_sampled(rng, 6000, (4, 6), 8, lambda r, nc: stv_config(r, nc, list(rules) + ["STV"] if "STV" in rules else list(rules)))
-    # a slice with the real pandas DataFrame in every profile (the bulk uses the light stand-in)
-    for inp in rng.sample(inputs, min(len(inputs), 150 if tier == "quick" else 1500)):
-        s = dict(inp)
-        s["slow"] = True
-        inputs.append(s)
-    return inputs
+        inputs += EL.inputs_sampled(rng, 6000, (4, 6), 8, lambda r, nc: stv_config(r, nc, pool))
+    return EL.add_slow_slice(rng, inputs, 150 if tier == "quick" else 1500)
 
 
 def nontrivial(t):
@@ -41,24 +38,9 @@ def nontrivial(t):
 
 
 def run(tier, seed, replay=None):
-    res = Result(PID, tier, seed)
-    scratch(PID)
-    res.rule = ("role 1: TLC exhaustive over every profile of <=K distinct untied rankings of 3 candidates x every "
-                "m/quota/mode/transfer/tiebreak configuration x every random outcome; role 2: real STV/IRV/SequentialRCV runs "
-                "(all random branches enumerated by the scripted source) validated round by round by ElectionTrace. "
-                "non-trivial = distinct (configuration, profile) whose run has at least two rounds (a transfer or an elimination)")
-    if replay:
-        inputs = [json.load(open(replay))["replay"]["input"]]
-    else:
-        if tier == "quick":
-            EL.model_check(res, PID, "stv", ["A", "B", "C"], 2, 1, with_half=True)
-        else:
-            EL.model_check(res, PID, "stv", ["A", "B", "C"], 2, 2, with_half=True)
-            EL.model_check(res, PID, "droop", ["A", "B", "C"], 3, 2, name="mc_droop3")
-        inputs = corpus(tier, seed)
-    res.evaluations = len(inputs)
-    traces = EL.record_corpus(inputs)
-    EL.judge(res, PID, traces, os.path.join(OUT, PID, "traces"), nontrivial=nontrivial)
-    res.exhaustive = tier == "thorough"
-    res.notes["inputs"] = len(inputs)
-    return res
+    return EL.standard_run(
+        PID, tier, seed, replay, MC, corpus, nontrivial,
+        rule_text="role 1: TLC exhaustive over every profile of <=K distinct untied rankings of 3 candidates x every "
+                  "m/quota/mode/transfer/tiebreak configuration x every random outcome; role 2: real STV/IRV/SequentialRCV runs "
+                  "(all random branches enumerated by the scripted source) validated round by round by ElectionTrace. "
+                  "non-trivial = distinct (configuration, profile) whose run has at least two rounds (a transfer or an elimination)")
